@@ -1090,6 +1090,12 @@ class Interp:
                 return o.copy()
             if a in ("astype", "as_mutable", "as_immutable"):
                 return o
+            if a == "applyfunc":
+                f = args[0] if args else None
+                if isinstance(f, _Module) and f.name in ("sp.simplify", "sp.expand",
+                                                         "sp.factor", "sp.nsimplify"):
+                    return o.copy()
+                raise Unsupported("applyfunc of an unknown function")
             if a in ("det", "inv"):
                 full, det = self.matrix_inverse(o, node)
                 if a == "det":
@@ -1122,8 +1128,31 @@ class Interp:
                 r = r.map(lambda p, ax=ax: deriv(p, ax))
             return r
         if name == "MutableDenseNDimArray":
+            if len(args) == 1:
+                return self.to_arr(args[0]).copy()
             shp = tuple(_as_int(d) for d in args[1])
             return Arr(shp, None, {})
+        if name == "tensorcontraction":
+            a = self.to_arr(args[0])
+            for pair in args[1:]:
+                i, j = sorted(_as_int(x) for x in pair)
+                if a.shape[i] != a.shape[j]:
+                    self.problem("einsum-dimension", "tensorcontraction over slots of "
+                                 f"different dimension {a.shape}", node)
+                    raise Unsupported("contraction dims")
+                if a.var[i] is not None and a.var[i] == a.var[j]:
+                    self.problem("einsum-variance", f"tensorcontraction over slots {i},{j} "
+                                 f"joins two {'upper' if a.var[i] == 'u' else 'lower'} "
+                                 "indices", node)
+                out = {}
+                for idx, p in a.c.items():
+                    if idx[i] == idx[j]:
+                        k = tuple(x for n, x in enumerate(idx) if n not in (i, j))
+                        out[k] = out[k] + p if k in out else p
+                keep = [n for n in range(a.rank) if n not in (i, j)]
+                a = Arr([a.shape[n] for n in keep], [a.var[n] for n in keep],
+                        {k: v for k, v in out.items() if not v.is_zero()})
+            return a
         if name == "Matrix":
             return self.to_arr(args[0])
         if name in ("sqrt", "exp", "log", "sin", "cos"):
